@@ -34,7 +34,8 @@ fn check_case(ctx: &Ctx, stream: &str, idx: u64, scfg: &SCfg, inserts: &[Entry],
     {
         let mon = mon.clone();
         let creates = creates.clone();
-        let max_chunks = scfg.max_nb_chunks as u64;
+        // a configured maximum of 0 is raised to 1 by the builder: the bound uses that effective value
+        let max_chunks = scfg.max_nb_chunks.max(1) as u64;
         cc.on_create = Some(Arc::new(move |live| {
             let mut m = mon.lock().unwrap();
             m.creates += 1;
@@ -44,7 +45,7 @@ fn check_case(ctx: &Ctx, stream: &str, idx: u64, scfg: &SCfg, inserts: &[Entry],
                 m.max_live_at_create = live;
             }
             if live > max_chunks + 2 && m.first_live_violation.is_none() {
-                m.first_live_violation = Some(format!("{} chunks exist at create #{} (max_nb_chunks = {})", live, m.creates, max_chunks));
+                m.first_live_violation = Some(format!("{} chunks exist at create #{} (effective max_nb_chunks = {})", live, m.creates, max_chunks));
             }
         }));
     }
@@ -113,7 +114,7 @@ fn check_case(ctx: &Ctx, stream: &str, idx: u64, scfg: &SCfg, inserts: &[Entry],
     ctx.count("creates_observed", m.creates);
     ctx.count("spills_observed_via_H3", m.spills_seen_by_h3);
     ctx.count("inserted_bytes", total as u64);
-    ctx.max("max_live_chunks_minus_max_nb_chunks", m.max_live_at_create.saturating_sub(scfg.max_nb_chunks as u64));
+    ctx.max("max_live_chunks_minus_max_nb_chunks", m.max_live_at_create.saturating_sub(scfg.max_nb_chunks.max(1) as u64));
     ctx.max(if scfg.allow_realloc { "max_unspilled_permille_of_T(realloc on, bound 2000)" } else { "max_unspilled_permille_of_T(realloc off, bound 1000)" }, m.max_since * 1000 / t.max(1));
     ctx.max("max_volume_over_T", (total as u64) / t.max(1));
     if m.spills_seen_by_h3 >= 3 {
@@ -179,7 +180,7 @@ pub fn run(ctx: &Ctx) -> i32 {
     ctx.par("scaled", n, true, |idx, rng| {
         let mut scfg = gen_scfg(rng);
         scfg.parallel = false;
-        scfg.max_nb_chunks = *rng.pick(&[1usize, 1, 2, 3, 5, 8, 30]);
+        scfg.max_nb_chunks = *rng.pick(&[0usize, 1, 1, 2, 3, 5, 8, 30]);
         // budgets on and off multiples of the 16-byte bound size
         scfg.budget = *rng.pick(&[1000usize, 1024, 2048, 4096, 5000, 10_001, 14_285, 16_384, 65_536]);
         // initial capacity never above the budget (as with the real constants)
